@@ -313,7 +313,11 @@ def async_form_problems(visitor, tree, ph, sc):
             fails.append("a plain `for` iterates over a template expression in async mode")
         if isinstance(n, ast.AsyncFor):
             it = n.iter
-            ok = (isinstance(it, ast.Call) and (emit.call_name(it) in ("auto_aiter", "AsyncLoopContext") or (isinstance(it.func, ast.Name) and it.func.id in ph))) \
+            # auto_aiter(x) / AsyncLoopContext(x, ...) / the generated loop-filter function t_N(auto_aiter(x)) (an async generator) / a generator variable
+            filt = isinstance(it, ast.Call) and isinstance(it.func, ast.Name) and (it.func.id in ph or re.fullmatch(r"t_\d+", it.func.id)) and len(it.args) == 1 \
+                and (not any(isinstance(x, ast.Name) and isinstance(ph.get(x.id), emit.Hole) for x in ast.walk(it.args[0]))
+                     or (isinstance(it.args[0], ast.Call) and emit.call_name(it.args[0]) == "auto_aiter"))
+            ok = (isinstance(it, ast.Call) and emit.call_name(it) in ("auto_aiter", "AsyncLoopContext")) or filt \
                 or (isinstance(it, ast.Name) and it.id in ("gen", "agen", "reciter"))
             if not ok:
                 fails.append(f"`async for` over {ast.unparse(it)[:60]}: not auto_aiter(...) / AsyncLoopContext(...) / a generated async generator")
@@ -472,7 +476,15 @@ class EraseTask(Task):
         return f"{w.get('visitor')}:{'buffer' if w.get('buffer') else 'yield'}:{w.get('only')}"
 
     def replay(self, w):
-        return native_source_erase(w.get("visitor"))
+        if w.get("reason") == "async_form":
+            # a missing async marker is invisible to erase(): render the templates that exercise the visitor in both modes
+            return native_render_for_visitor(w.get("visitor"))
+        v, d = native_source_erase(w.get("visitor"))
+        if not v:
+            v2, d2 = native_render_for_visitor(w.get("visitor"))
+            if v2:
+                return v2, d2
+        return v, d
 
 
 def configure_erase(I):
@@ -810,6 +822,31 @@ def render_disagreements(names=None, env_classes=None):
                         if d["acc"] != [0]:
                             bad.append((f"{name}:{'async' if is_async else 'sync'}:argument-modified", f"template {name!r} ({cls.__name__}, async={is_async}): the `start` argument list was modified in place: {d['acc']}"))
     return n, bad
+
+
+_KNOWN9 = None
+
+
+def known_keys9():
+    global _KNOWN9
+    if _KNOWN9 is None:
+        _KNOWN9 = set()
+        try:
+            for f in json.load(open(os.path.join(ROOT, "known_findings.d", "c09.json"))).get("findings", []):
+                _KNOWN9.add(f.get("key"))
+        except OSError:
+            pass
+    return _KNOWN9
+
+
+def native_render_for_visitor(visitor):
+    from jinja2 import Environment
+    names = [n for n in TEMPLATES if n not in ("lib", "inc", "base") and (visitor is None or visitor in exercised(n))]
+    n, bad = render_disagreements(names, [Environment])
+    bad = [b for b in bad if b[0] not in known_keys9()]
+    if bad:
+        return True, bad[0][1]
+    return False, f"{n} renderings of the templates that exercise visit_{visitor} agree in sync and async mode"
 
 
 class RenderParity(FnTask):
